@@ -88,8 +88,20 @@ func vfC13Tx(kinds int, acc []byte) types.Transaction {
 		body.Recipient = []byte(types.AergoName)
 		body.Amount = vf.BigBytes("amount")
 	}
+	if vfC13Sized >= 0 {
+		// variant for MemPool.get: concrete amount image and a payload whose length depends on the position in the
+		// account's list (small, big, small, ...), so that wire sizes differ; the nonce varint stays symbolic
+		body.Amount = []byte{1}
+		if vfC13Sized%2 == 1 {
+			body.Payload = make([]byte, 300)
+		}
+		vfC13Sized++
+	}
 	return types.NewTransaction(&types.Tx{Hash: vf.Bytes("hash", 32), Body: body})
 }
+
+// vfC13Sized >= 0 switches vfC13Tx to the sized variant (counter = position parity)
+var vfC13Sized = -1
 
 func vfNonce(tx types.Transaction) uint64 { return tx.GetBody().GetNonce() }
 
